@@ -96,7 +96,7 @@ fn judge(x: &str) -> Judged {
                 } else if a.trim() == b.trim() {
                     "indentation".to_string()
                 } else {
-                    format!("content@{}", line_head(a))
+                    "content".to_string()
                 };
                 fails.push(Fail { key: format!("idem:{kind}"), what: format!("fmt(fmt(x)) != fmt(x) at line {}:\n  first:  {a:?}\n  second: {b:?}", i + 1) });
             }
@@ -139,7 +139,10 @@ fn judge(x: &str) -> Judged {
                 line_start = i + 1;
             } else if b == b'\t' && !mask[i] {
                 let line = y[line_start..].lines().next().unwrap_or("");
-                fails.push(Fail { key: format!("tab:{}", line_head(line)), what: format!("tab outside strings: {line:?}") });
+                let kind = if y[line_start..i].trim().is_empty() { "tab:indentation" } else { "tab:inline" };
+                if !fails.iter().any(|f| f.key == kind) {
+                    fails.push(Fail { key: kind.to_string(), what: format!("tab outside strings: {line:?}") });
+                }
             }
         }
     }
@@ -211,7 +214,7 @@ fn run_chunk(idx: usize, n: usize, seed: u64, cfg: &gsyn::GsynConfig, known: &Kn
                         *out.classes.entry(t).or_insert(0) += 1;
                     }
                 }
-                if idx == 0 && k % 50 == 3 && out.samples.len() < 3 {
+                if idx < 3 && k % 50 == 3 && out.samples.len() < 2 {
                     out.samples.push((p.source.clone(), formatted.clone()));
                 }
                 if idx < 40 && out.cli.len() < 1 && k % 17 == 5 && formatted != p.source && p.source.len() < 4000 {
@@ -525,11 +528,23 @@ fn main() {
     for (n, t) in doc_blocks() {
         inputs.push((n, t, "doc_blocks"));
     }
+    for dir in ["known/C08", "known/C09"] {
+        let mut files: Vec<_> = std::fs::read_dir(vcore::verif_root().join(dir)).into_iter().flatten().flatten().map(|e| e.path()).collect();
+        files.sort();
+        for p in files {
+            if let Ok(t) = std::fs::read_to_string(&p) {
+                inputs.push((p.display().to_string(), t, "regression_inputs"));
+            }
+        }
+    }
     let mut seed_stats: BTreeMap<String, u64> = BTreeMap::new();
     for (name, text, class) in &inputs {
         ev.class(class);
         let r = judge_text_and_report(name, text, &known, &mut out, &mut ev);
         *seed_stats.entry(format!("{class}:{r}")).or_insert(0) += 1;
+        if *class == "seed_files" && r == "judged" && seed_stats[&format!("{class}:{r}")] <= 2 {
+            ev.sample(json!({"kind": "seed_file", "file": name, "bytes": text.len()}));
+        }
         if *class == "seed_files" && r == "judged" && cli_files.len() < n_cli + 4 && text.len() < 6000 {
             if let Judged::Done { formatted, .. } = judge(text) {
                 if formatted != *text {
